@@ -165,6 +165,10 @@ def asg_structural_contracts():
     variants = {}
     for vm in re.finditer(r'(?m)^\s*(\w+)\((Box<)?(\w+)>?\),', rf.src[it_s['header_start']:it_s['end']]):
         variants.setdefault(vm.group(3), []).append((vm.group(1), bool(vm.group(2))))
+    it_e = rf.find_block_item('enum', 'Expr')
+    evariants = {}
+    for vm in re.finditer(r'(?m)^\s*(\w+)\((Box<)?(\w+)>?\),', rf.src[it_e['header_start']:it_e['end']]):
+        evariants.setdefault(vm.group(3), []).append((vm.group(1), bool(vm.group(2))))
     for ty, fs in fields.items():
         for blk in rf.find_all_impls(re.escape(ty)):
             d1 = rf.depth[blk['body_open']] + 1
@@ -181,6 +185,11 @@ def asg_structural_contracts():
                     ens = ['r.%s == %s' % (n, n) for n in names if n in fs]
                     if ens and len(ens) == len(names):
                         out[q] = dict(ret='r', props=['C06', 'C08', 'C09'], spec='ensures ' + ', '.join(ens) + ',                     //@C06:constructor-keeps-fields')
+                elif fn in ('to_texpr', 'to_expr') and re.search(r'\(\s*self\b[^)]*\)\s*->\s*(TExpr|Expr)\s*$', sig) and len(evariants.get(ty, [])) == 1:
+                    # `X::to_expr(self)` / `X::to_texpr(self, ..)` must wrap `self` in the Expr variant that holds an X
+                    vn, boxed = evariants[ty][0]
+                    wrapped = 'Expr::%s(%s)' % (vn, 'Box::new(self)' if boxed else 'self')
+                    out[q] = dict(ret='r', props=['C06', 'C08'], spec='ensures %s == %s,                             //@C06:expression-kind' % ('r' if fn == 'to_expr' else 'r.expression', wrapped))
                 elif fn == 'to_stmt' and re.search(r'\(\s*self\s*\)\s*->\s*Stmt\s*$', sig) and len(variants.get(ty, [])) == 1:
                     vn, boxed = variants[ty][0]
                     out[q] = dict(ret='r', props=['C06', 'C08', 'C09'], spec='ensures r == Stmt::%s(%s),                             //@C06:statement-kind' % (vn, 'Box::new(self)' if boxed else 'self'))
@@ -396,6 +405,8 @@ impl vstd::std_specs::convert::TryFromSpecImpl<&TExpr> for u32 {
     })
     for q, why in ASG_TRUSTED.items():
         ov[q] = dict(trusted=True, note=why)
+    ov['BitStringLiteral::to_texpr'] = dict(trusted=True, ret='r', props=['C08'], note='`chars().filter(..).count()` (iterator adapters): not verified; the contract is what the body says about kind, const-ness and expression',
+        spec='ensures r.expression == Expr::Literal(Literal::BitString(self)), r.ty is BitArray && ' + T_ + 'sp_is_const(r.ty),      // (assumed) bit-string literal: a const bit register')
     a.ingest(overrides=ov, skip=ASG_SKIP, default=lambda q, sig: dict(props=P))
     U.raw('}\n')
     # ---- the analyser (syntax_to_semantics.rs) at the crate root
@@ -608,6 +619,18 @@ ensures
     r == asg::Stmt::DeclareClassical(Box::new(asg::DeclareClassical { name: symbol_id, initializer })),
     final(context).errs() == old(context).errs(), final(context).trace() == old(context).trace(),
 '''))
+    zov.setdefault('can_cast_literal', {}).update(dict(ret='r', props=['C08'], rewrites=[('D23', 'matches!(lhs_type, &Type::UInt(..))', 'matches!(*lhs_type, Type::UInt(..))')], spec='ensures (r && !(*lhs_type is UInt && literal is Int)) ==> !types::must_diagnose(*lhs_type, *init_type),      //@C08:no-literal-cast-for-kind-lowering'))
+    KL_ = 'proof { assert(types::must_diagnose(lhs_type, it0) ==> type_diag_last(context.errs())); }     //@C08:kind-lowering-always-diagnosed'
+    zov.setdefault('classical_declaration_statement_to_asg_stmt', {})['ghost'] = [
+        # C08: a conversion that lowers the kind (float -> int, complex -> real, anything to or from bit / bool / duration /
+        # angle of another kind) is diagnosed on every path: never stored silently, not even behind a cast
+        ('        let init_type = initializer.get_type();', 'after', 'let ghost it0 = initializer.ty;'),
+        ('            return asg::DeclareClassical::new(symbol_id, Some(initializer)).to_stmt();', 'before', KL_),
+        # (uint <- integer literal is decided by the sign alone; that an integer literal expression is typed int is not an invariant of TExpr)
+        ('                return declare_classical_helper(symbol_id, Some(new_initializer), context);', 'before', KL_.replace('types::must_diagnose(lhs_type, it0) ==>', '(types::must_diagnose(lhs_type, it0) && !(lhs_type is UInt && initializer.expression->Literal_0 is Int)) ==>')),
+        ('                return declare_classical_helper(symbol_id, Some(initializer), context);', 'before', KL_),
+        ('        return declare_classical_helper(symbol_id, Some(new_initializer), context);\n    }\n    declare_classical_helper(symbol_id, initializer, context)', 'before', KL_),
+    ]
     zov.setdefault('classical_declaration_statement_to_asg_stmt', {}).update(dict(ret='r', props=['C08', 'C07', 'C09', 'C03'], spec='''
 ensures
     grows(*old(context), *final(context)),
@@ -630,6 +653,13 @@ ensures
                     r->Some_0->Assignment_0.lvalue, r->Some_0->Assignment_0.rvalue)),                                     //@C08,C13:assignment-rule
 ''', ghost=[('let (symbol_id, symbol_type) = context.lookup_symbol(name_str.as_str(), name).as_tuple();', 'before', 'let ghost mid = *context;'),
             ('let (symbol_id, symbol_type) = context.lookup_symbol(name_str.as_str(), name).as_tuple();', 'after', 'let ghost e1 = context.errs();'),
+            ('        let expr_type = expr.get_type();', 'before', 'let ghost ex0 = expr;'),
+            ('let stmt_asg = Some(asg::Assignment::new(lvalue, expr).to_stmt());', 'before', '''proof {
+    // C08: a kind-lowering conversion is never stored silently (carve-out: the recorded integer-literal finding)
+    // (integer-literal values are the recorded finding / decided by sign; no variable has type void)
+    assert((symbol_ok && types::must_diagnose(symbol_type, ex0.ty) && !(ex0.expression is Literal && ex0.expression->Literal_0 is Int) && !(symbol_type is Void))
+           ==> context.errs().len() == e1.len() + 1 && is_type_diag(context.errs().last()));     //@C08:kind-lowering-always-diagnosed
+}'''),
             ('let stmt_asg = Some(asg::Assignment::new(lvalue, expr).to_stmt());', 'before', '''let ghost td = context.errs().skip(e1.len() as int);
 let ghost lv0 = lvalue; let ghost rv0 = expr;
 proof { assert(context.errs() =~= e1 + td); }'''),
